@@ -79,6 +79,21 @@ CHECKS = {
    text='Theorems C11_subst_group_free, C11_subst_prefix_copied, C11_subst_at_group, C11_subst_undefined, C11_bisim_sound (closed) on the model of subst_subpatterns. Per run: curated and random definitions with subpatterns (top-level alternation, inline flags, lazy repetition, assertions, byte-string subpatterns, chains three deep, references under repetition): the captured leaf DFA is language-equal (bisim_ok) to the DFA of the pattern inlined by an independent inliner with scoped (?u:..)/(?-u:..) groups; undefined references are compile errors; the real subst_subpatterns equals Front.Subpat.subst by vm_compute.',
    design='DESIGN.md section 7 (C11)',
    note='The subst model is a hand mirror tied by K8; grouping semantics of the regex grammar is exercised, not proved.'),
+ 'C17': dict(
+   technique='Coq proof on token-list models (derive-list rewriting; CLI write/check over a file-system map) + differential run of the logos-cli binary against an independent syn-based expectation',
+   text='Theorems C17_strip_derive_keeps_others / _spec (the repaired rewriting keeps exactly the paths not ending in Logos, path-qualified ones included), C17_old_refuted (the token loop as it was: finding F4), C17_check_never_writes, C17_check_ok_iff (check succeeds iff the file holds the output up to line endings, with str::lines modelled), C17_write_then_check_ok (closed). Per run: the real binary on generated enum sources (Logos in every derive position and spelling, path derives, cfg_attr, repr, docs, variant and field attributes, lifetimes): output parsed as Rust, enum compared structurally with an expectation written from the property, the rest with generate(); write / --check / external-edit sequences against Cli.run by vm_compute.',
+   design='DESIGN.md sections 7 (C17), 9 (F4)',
+   note='Models are hand mirrors (lib.rs:449-493, main.rs:41-57) tied by K10. "Valid Rust" is checked by parsing. rustfmt (--format) is outside.'),
+ 'C18': dict(
+   technique='Coq proof (induction over the item list) on a statement-by-statement model of the attribute tokenizer + permutation-invariance proof of named arguments + differential and end-to-end permutation runs',
+   text='Theorems C18_parse_join_items (for every list of well-formed items name = v / name(..) / name "lit" / name ident = v / positional, the tokenizer returns exactly those items from their comma-joined text), C18_named_args_commute (any permutation of named arguments over distinct fields gives the same definition and no error), C18_old_refuted (finding F5) (closed). Per run: the real AttributeParser equals the model by vm_compute on curated and random attribute contents incl. malformed ones; every permutation of up to 4 named arguments x {token, regex, skip(..)} x {no positional callback, label, closure} and dependency-respecting permutations of #[logos(..)] items give the same outcome, leaves and byte-identical generated code.',
+   design='DESIGN.md sections 7 (C18), 9 (F5)',
+   note='Argument values are parsed by syn (outside the model). Reordering skips renumbers leaves; those orders are compared only for outcome here.'),
+ 'C19': dict(
+   technique='Coq proof on the panic-relevant decision skeleton and on the greedy-dot test (soundness and completeness w.r.t. an inductive specification) + catch_unwind and real-rustc runs on curated and random malformed definitions',
+   text='Theorems C19_never_panics, C19_bad_variant_rejected (skeleton of the two panic sites and of variant shapes), C19_greedy_complete / C19_greedy_sound (the repaired test finds an unbounded greedy dot repetition at any depth and only those), and regression lemmas for F6, F7, F8 (closed). Per run: ~90 curated must-reject definitions by class, seeded random malformed definitions and the repo corpus through generate() under catch_unwind; the same sources through rustc with the real proc macro (scanned for "proc-macro derive panicked"; every rejected definition must carry an error); check_for_greedy_all equals the Coq test on every captured HIR and no greedy leaf is accepted without allow_greedy. Empty-match / UTF-8 / undefined-subpattern rejections are decided by C03 / C04 / C11.',
+   design='DESIGN.md sections 7 (C19), 9 (F6-F8)',
+   note='PARTIAL: panics inside syn / regex-syntax / regex-automata and rustc itself are outside the model; termination is observed per call, not proved; the skeleton covers logos\' own panic sites only.'),
 }
 
 def main():
